@@ -4,6 +4,7 @@ import (
 	"fmt"
 	"sort"
 	"strings"
+	"time"
 
 	"github.com/jimlambrt/gldap"
 	"github.com/jimlambrt/gldap/simrt"
@@ -40,9 +41,34 @@ func (c *Core) anyCorrupt() bool {
 // modelRoute is the reference first-match function, written from the
 // statement of C03. It returns the index into Cfg.Routes, or -1 if gldap
 // itself must answer.
-func (c *Core) modelRoute(rec *ReqRec) int {
+func (c *Core) modelRoute(rec *ReqRec) int { return c.modelRouteAt(rec, true) }
+
+// routeFor is modelRoute for a request and a moment: routes registered on
+// the live mux count from the step at which their registration was complete.
+// A request sent after that is matched against the whole table, one whose
+// handler was entered before the registration began against the early routes
+// only; for anything in between both answers are possible and ok is false
+// unless they agree.
+func (c *Core) routeFor(q *Req, enterStep int64) (want int, ok bool) {
+	full := c.modelRouteAt(q.Rec, true)
+	early := c.modelRouteAt(q.Rec, false)
+	switch {
+	case full == early:
+		return full, true
+	case c.lateDone > 0 && int64(q.sentStep) > c.lateDone:
+		return full, true
+	case enterStep > 0 && (c.lateStart == 0 || enterStep < c.lateStart):
+		return early, true
+	}
+	return full, false
+}
+
+func (c *Core) modelRouteAt(rec *ReqRec, withLate bool) int {
 	def := -1
 	for i, rt := range c.Cfg.Routes {
+		if rt.Late && !withLate {
+			continue
+		}
 		switch rt.Kind {
 		case "default":
 			def = i
@@ -200,11 +226,11 @@ func (c *Core) onEnter(s *Sim, e *simrt.Event) {
 	}
 	q.actual = ent.Act
 	// C03 first-match
-	want := c.modelRoute(q.Rec)
+	want, decided := c.routeFor(q, e.Step)
 	if op == "unbind" {
-		want = c.unbindRoute()
+		want, decided = c.unbindRoute(), true
 	}
-	if int(e.A) != want {
+	if decided && int(e.A) != want {
 		wk, gk := "none", c.Cfg.Routes[e.A].Kind
 		if want >= 0 {
 			wk = c.Cfg.Routes[want].Kind
@@ -368,6 +394,29 @@ func (c *Core) checkBoth(s *Sim) {
 	}
 	if c.Cfg.StopMode == 2 && c.runErr != "" {
 		s.Violate("C12", "idempotent", when+" run-error", "Run returned "+c.runErr)
+	}
+}
+
+// onStopRet is the "bounded time" half of C11, in simulated time. Between the
+// call and the return of a Stop nothing the harness controls may have held
+// it up (no quiescence was needed to release a stalled handler or callback)
+// and the clock was not made to jump; what remains is time gldap itself let
+// pass: the one-second grace for pending writes, and nothing else of that
+// order. Ten seconds is the bound.
+func (c *Core) onStopRet(s *Sim, n int) {
+	at, ok := c.stopAt[n]
+	if !ok || c.stopMark[n] != [2]int{c.quiesceN, c.jumps} {
+		return
+	}
+	s.Probe("C11-stop-duration-judged")
+	if d := time.Since(at); d > 10*time.Second {
+		states := ""
+		for _, cl := range c.Cfg.Clients {
+			if cl.ep != nil && cl.accepted {
+				states += " " + c.connState(cl)
+			}
+		}
+		s.Violate("C11", "bounded", "stop-took-longer-than-10s", fmt.Sprintf("Stop call %d returned after %v of simulated time (write timeout %v, read timeout %v); connection states at its return:%s", n, d.Round(time.Millisecond), c.Cfg.WriteTimeout, c.Cfg.ReadTimeout, states))
 	}
 }
 
@@ -803,9 +852,12 @@ func (c *Core) finishClient(s *Sim, cl *Client) {
 		op := q.Rec.Op
 		// delivery (C01.delivered / C03.once): the request must have reached a handler
 		servable := c.stopCalls == 0 && cl.ended != "reset" && !cl.ep.IsReset() && cl.ep.Peer.InFlightIn() == 0 && cfg.ReadTimeout == 0 && cfg.WriteTimeout == 0 && !cl.Offending && (cl.Flavour == 0 || cl.hsDone || cl.Flavour == 2)
-		want := c.modelRoute(q.Rec)
+		want, decided := c.routeFor(q, q.enterStep)
 		if op == "unbind" {
-			want = c.unbindRoute()
+			want, decided = c.unbindRoute(), true
+		}
+		if !decided {
+			continue // matched while routes were being registered: either table
 		}
 		if servable && q.entered == 0 && want >= 0 {
 			if undelivered {
